@@ -206,7 +206,11 @@ func cmdXAdd(m *Model, d *DB, conn int, a [][]byte, now time.Time) Reply {
 			if !ok || !sg {
 				return false, "expected a stream ID, got " + describe(got)
 			}
-			if idLess(gm, gs, ms, seq) || gm > ms+1000 {
+			hiMS := ms + 1000
+			if !m.NowHi.IsZero() && uint64(m.NowHi.UnixMilli()) > ms {
+				hiMS = uint64(m.NowHi.UnixMilli())
+			}
+			if idLess(gm, gs, ms, seq) || gm > hiMS {
 				return false, fmt.Sprintf("auto-generated ID %s is not the next ID at clock %d ms (expected %s)", got.Str, now.UnixMilli(), want)
 			}
 			if gm == ms && gs != seq {
@@ -215,8 +219,9 @@ func cmdXAdd(m *Model, d *DB, conn int, a [][]byte, now time.Time) Reply {
 			if gm > ms && gs != 0 {
 				return false, fmt.Sprintf("auto-generated ID %s: a new millisecond starts at sequence 0", got.Str)
 			}
-			last := &e.X[len(e.X)-1]
-			last.MS, last.Seq = gm, gs
+			if n := len(e.X); n > 0 && e.X[n-1].MS == ms && e.X[n-1].Seq == seq {
+				e.X[n-1].MS, e.X[n-1].Seq = gm, gs
+			}
 			e.XLastMS, e.XLastSeq = gm, gs
 			return true, ""
 		}}
